@@ -13,7 +13,7 @@ import vlib, lang, factlib, ugen
 from vlib import tlc, expect_holds, ToolError
 
 LEVEL = "model_checking"
-TIERS = {"quick": dict(queries=450), "thorough": dict(queries=6000)}
+TIERS = {"quick": dict(queries=1500), "thorough": dict(queries=6000)}
 
 
 def generate(rnd, phrases, n):
@@ -38,7 +38,7 @@ def generate(rnd, phrases, n):
             # several results and errors in one query
             parts = [rnd.choice(["1 / 0", "2 m + 3 s", str(rnd.randint(1, 50)), "%d m" % rnd.randint(1, 5), "10 / 4", rnd.choice(phrases), "1 decade", "2 decades",
                                  "1 m/decade", "10 / 2s", "1 / 1 s", "4 m/decade", "%d m^%d" % (rnd.randint(1, 3), rnd.choice([2, 10, 12, 13]))]) for _ in range(rnd.randint(2, 4))]
-            out.append(", ".join(parts))
+            out.append(" ".join("(%s)" % x for x in parts))      # several root-level expressions = several results
         elif c < 0.9:
             u = rnd.choice(["s", "decade", "m/s", "m/decade", "1/s", "kg", "ft", "century", "J/century", "hours", "inches", "m^12", "m^10", "s^-13"])
             out.append("%s %s" % (rnd.choice(["1", "2", "1.0", "0.5", "3/3", "10"]), u))
